@@ -1,20 +1,14 @@
 import TarsModel.Proofs.TotalAlloc
 
 /-!
-  C05 helper lemmas, part 10: reachability of the panic sites and of unbounded allocation
-  (general sufficient conditions; the concrete witnesses in `Props/C05.lean` instantiate them).
+  C05 helper lemmas, part 10: concrete schemas and inputs.  Since fix 040488e ("generated decoders
+  validate element counts and lengths before allocating") the former D11 witnesses are rejected
+  with an error by the model; the as-found behaviour is witnessed on `AsFound.vecMake` /
+  `AsFound.arrLoop` (`Model/Cost.lean`).  Also: `ReadFrom` never yields the ill-typed marker for
+  well-shaped targets.
 -/
 namespace Tars
 open Consts
-
-/-- a `vector<e>` member whose LIST length prefix is negative: `make([]e, length)` panics -/
-theorem decVar_vec_makeslice (env : Env) (f tag : Nat) (req : Bool) (e : Ty) (old : Val)
-    {r r1 r2 : Reader} {len : Int}
-    (hs : skipToNoCheck tag req r = (.ok (true, tyLIST), r1))
-    (hl : readLen r1 = (.ok len, r2)) (hneg : len < 0) :
-    decVar env (f+1) tag req (.vec e) old r = (.error (.panic "makeslice"), r2) := by
-  rw [Total.decVar_vec, hs]
-  simp only [Bool.not_true, Bool.and_false, Bool.false_eq_true, if_false, if_true, hl, if_pos hneg]
 
 /-- an error in the first member is the result of the member sequence -/
 theorem decMembers_first_err (env : Env) (f : Nat) (fld : Field) (fs : List Field) (o : Val)
@@ -27,38 +21,48 @@ theorem rd_cons_shape (env : Env) (fuel : Nat) (f : Field) (fs : List Field) (v 
     (vs : List Val) : ∃ v' vs', resetDefault env (fuel+1) (f :: fs) (v :: vs) = v' :: vs' := by
   rw [rd_cons]; exact ⟨_, _, rfl⟩
 
-theorem decFuel_succ (env : Env) (r : Reader) : ∃ f, decFuel env r = f + 1 := by
-  refine ⟨decFuel env r - 1, ?_⟩
-  have : 1 ≤ decFuel env r := by
+theorem decFuel_succ2 (env : Env) (r : Reader) : ∃ f, decFuel env r = f + 1 + 1 := by
+  refine ⟨decFuel env r - 2, ?_⟩
+  have : 6 ≤ decFuel env r := by
     unfold decFuel
-    exact Nat.le_trans (by omega : 1 ≤ 3 * 2) (Nat.mul_le_mul (by omega) (by omega))
+    exact Nat.le_trans (by omega : 6 ≤ 3 * 2) (Nat.mul_le_mul (by omega) (by omega))
   omega
 
-/-- **makeslice is reachable in every generated `ReadFrom` whose first member is a vector**: a
-    LIST head under the member's tag followed by a negative length -/
-theorem decStruct_makeslice (env : Env) (name : String) (fld : Field) (fs : List Field) (e : Ty)
-    (o : Val) (os : List Val) {r r1 r2 : Reader} {len : Int}
-    (hfind : env.find name = some (fld :: fs)) (hty : fld.ty = .vec e)
-    (hs : skipToNoCheck fld.tag fld.req r = (.ok (true, tyLIST), r1))
-    (hl : readLen r1 = (.ok len, r2)) (hneg : len < 0) :
-    decStruct env name (.struct (o :: os)) r = (.error (.panic "makeslice"), r2) := by
+/-- if the first member fails whatever its (reset) old value, `ReadFrom` fails the same way -/
+theorem decStruct_first_err (env : Env) (name : String) (fld : Field) (fs : List Field)
+    (o : Val) (os : List Val) {r r' : Reader} {e : Err}
+    (hfind : env.find name = some (fld :: fs))
+    (h : ∀ f o', decVar env (f+1) fld.tag fld.req fld.ty o' r = (.error e, r')) :
+    decStruct env name (.struct (o :: os)) r = (.error e, r') := by
   rw [decStruct_eq]
   simp only [hfind]
-  obtain ⟨f, hf⟩ := decFuel_succ env r
+  obtain ⟨f, hf⟩ := decFuel_succ2 env r
   rw [hf]
-  obtain ⟨o', os', hr⟩ := rd_cons_shape env f fld fs o os
-  rw [hr]
-  obtain ⟨f', rfl⟩ : ∃ f', f = f' + 1 := by
-    refine ⟨f - 1, ?_⟩
-    have : 6 ≤ decFuel env r := by
-      unfold decFuel
-      exact Nat.le_trans (by omega : 6 ≤ 3 * 2) (Nat.mul_le_mul (by omega) (by omega))
-    omega
-  have hv := decVar_vec_makeslice env f' fld.tag fld.req e o' hs hl hneg
-  rw [← hty] at hv
-  rw [decMembers_first_err env _ fld fs o' os' hv]
+  obtain ⟨o', os', hr⟩ := rd_cons_shape env (f+1) fld fs o os
+  rw [hr, decMembers_first_err env _ fld fs o' os' (h f o')]
 
-/-- the array loop at an index beyond the declared size, element type scalar: "index out of range" -/
+/-- a `vector<e>` member whose LIST length prefix fails `CheckLength` (negative, or more elements
+    than bytes remain) is rejected with an error before anything is allocated -/
+theorem decVar_vec_checkfail (env : Env) (f tag : Nat) (req : Bool) (e : Ty) (old : Val)
+    {r r1 r2 : Reader} {len : Int}
+    (hs : skipToNoCheck tag req r = (.ok (true, tyLIST), r1))
+    (hl : readLen r1 = (.ok len, r2)) (hbad : len < 0 ∨ (r2.remaining : Int) < len) :
+    decVar env (f+1) tag req (.vec e) old r = (.error .eof, r2) := by
+  rw [Total.decVar_vec, hs]
+  simp only [Bool.not_true, Bool.and_false, Bool.false_eq_true, if_false, if_true, hl,
+    checkLength_of_gt hbad]
+
+/-- a fixed-array member receiving a LIST longer than the array is rejected with an error -/
+theorem decVar_arr_toolong (env : Env) (f tag : Nat) (req : Bool) (n : Nat) (e : Ty) (old : Val)
+    {r r1 r2 : Reader} {len : Int}
+    (hs : skipToNoCheck tag req r = (.ok (true, tyLIST), r1))
+    (hl : readLen r1 = (.ok len, r2)) (hbad : len > (n : Int)) :
+    decVar env (f+1) tag req (.arr n e) old r = (.error .mismatch, r2) := by
+  rw [Total.decVar_arr, hs]
+  simp only [Bool.not_true, Bool.and_false, Bool.false_eq_true, if_false, if_true, hl, if_pos hbad]
+
+/-- the array loop at an index beyond the declared size, element type scalar: "index out of
+    range" (only reachable when the loop is entered with `len > n`, as it was before the fix) -/
 theorem decArr_overflow (env : Env) (f : Nat) (e : Ty) (n i : Nat) (len : Int) (cur : List Val)
     (r : Reader) (hi : (i : Int) < len) (hn : n ≤ i) (hat : Total.isAtom e = true) :
     decArr env (f+1) e n i len cur r = (.error (.panic "index"), r) := by
@@ -74,58 +78,7 @@ theorem decArr_step (env : Env) (f : Nat) (e : Ty) (n i : Nat) (len : Int) (cur 
   rw [Total.decArr_succ, if_neg (by omega), if_neg (by omega)]
   simp only [h]
 
-/-- allocation: the vector member requests at least the announced number of elements, whatever
-    the input still holds -/
-theorem decVarA_vec_alloc (env : Env) (f tag : Nat) (req : Bool) (e : Ty) (old : Val)
-    {r r1 r2 : Reader} {len : Int}
-    (hs : skipToNoCheck tag req r = (.ok (true, tyLIST), r1))
-    (hl : readLen r1 = (.ok len, r2)) (hpos : 0 ≤ len) :
-    len.toNat ≤ (decVarA env (f+1) tag req (.vec e) old r).2.alloc ∧
-    ((decVarA env (f+1) tag req (.vec e) old r).2.lenOK = true → len.toNat ≤ r2.remaining) := by
-  unfold decVarA
-  simp only [hs, Bool.not_true, Bool.and_false, Bool.false_eq_true, if_false, if_true, hl,
-    if_neg (by omega : ¬ len < 0)]
-  exact ⟨by simp, fun h => (Cost.make_lenOK h).1⟩
-
-theorem decMembersA_first_alloc (env : Env) (f : Nat) (fld : Field) (fs : List Field) (o : Val)
-    (os : List Val) (r : Reader) :
-    (decVarA env f fld.tag fld.req fld.ty o r).2.alloc
-      ≤ (decMembersA env (f+1) (fld :: fs) (o :: os) r).2.alloc := by
-  unfold decMembersA
-  simp only
-  rcases decVarA env f fld.tag fld.req fld.ty o r with ⟨⟨_ | v, r1⟩, c⟩
-  · simp
-  · simp only
-    rcases decMembersA env f fs os r1 with ⟨⟨_ | vs, r2⟩, c'⟩ <;> simp
-
-/-- **Unbounded allocation is reachable in every generated `ReadFrom` whose first member is a
-    vector**: the decoder requests `len` elements as soon as it has read the length prefix -/
-theorem decStructA_vec_alloc (env : Env) (name : String) (fld : Field) (fs : List Field) (e : Ty)
-    (o : Val) (os : List Val) {r r1 r2 : Reader} {len : Int}
-    (hfind : env.find name = some (fld :: fs)) (hty : fld.ty = .vec e)
-    (hs : skipToNoCheck fld.tag fld.req r = (.ok (true, tyLIST), r1))
-    (hl : readLen r1 = (.ok len, r2)) (hpos : 0 ≤ len) :
-    len.toNat ≤ (decStructA env name (.struct (o :: os)) r).2.alloc := by
-  unfold decStructA
-  simp only [hfind]
-  obtain ⟨f, hf⟩ := decFuel_succ env r
-  rw [hf]
-  obtain ⟨o', os', hr⟩ := rd_cons_shape env f fld fs o os
-  rw [hr]
-  obtain ⟨f', rfl⟩ : ∃ f', f = f' + 1 := by
-    refine ⟨f - 1, ?_⟩
-    have : 6 ≤ decFuel env r := by
-      unfold decFuel
-      exact Nat.le_trans (by omega : 6 ≤ 3 * 2) (Nat.mul_le_mul (by omega) (by omega))
-    omega
-  have h1 := (decVarA_vec_alloc env f' fld.tag fld.req e o' hs hl hpos).1
-  rw [← hty] at h1
-  have h2 := decMembersA_first_alloc env (f'+1) fld fs o' os' r
-  refine Nat.le_trans h1 (Nat.le_trans h2 ?_)
-  rcases (decMembersA env (f' + 1 + 1) (fld :: fs) (o' :: os') r) with ⟨⟨_ | vs, r2⟩, c'⟩ <;> simp
-
-
-/-! ### concrete schemas and inputs for the witnesses -/
+/-! ### concrete schemas and inputs -/
 
 /-- bytes from numerals -/
 def C05.bs (l : List Nat) : Bytes := l.map byte
@@ -141,6 +94,8 @@ def C05.negLenInput : Bytes := C05.bs [0x09, 0x00, 0xFF]
 def C05.overlongInput : Bytes := C05.bs [0x09, 0x00, 4, 0x00, 1, 0x00, 2, 0x00, 3, 0x00, 4]
 /-- LIST under tag 0 announcing 2^31 − 1 elements, then nothing: 6 bytes -/
 def C05.hugeLenInput : Bytes := C05.bs [0x09, 0x02, 0x7F, 0xFF, 0xFF, 0xFF]
+/-- a valid `vector<int>` of two elements (1, 2) under tag 0 -/
+def C05.twoInts : Bytes := C05.bs [0x09, 0x00, 2, 0x00, 1, 0x00, 2]
 
 theorem C05.freshV : freshStruct C05.envV "V" = .struct [.list []] := by
   simp [freshStruct, zeroOf, zeroVal, C05.envV, Env.find]
@@ -153,29 +108,65 @@ theorem C05.findV : C05.envV.find "V" = some [⟨0, true, .vec .i32, none⟩] :=
 theorem C05.findA : C05.envA.find "A" = some [⟨0, true, .arr 3 .i32, none⟩] := by
   simp [C05.envA, Env.find]
 
-open C05 in
-/-- witness for the "makeslice" site -/
-theorem witness_makeslice :
-    decStruct envV "V" (freshStruct envV "V") (Reader.mk0 negLenInput)
-      = (.error (.panic "makeslice"), ⟨negLenInput.toArray, 3⟩) := by
-  rw [freshV]
-  exact decStruct_makeslice envV "V" ⟨0, true, .vec .i32, none⟩ [] .i32 (.list []) []
-    (r1 := ⟨negLenInput.toArray, 1⟩) (len := -1) findV rfl (by rfl) (by rfl) (by decide)
+theorem C05.hugeLen_readLen :
+    readLen ⟨C05.hugeLenInput.toArray, 1⟩ = (.ok 2147483647, ⟨C05.hugeLenInput.toArray, 6⟩) := by
+  simp [readLen, readHead, readByte, C05.hugeLenInput, C05.bs, bReadU, readFull, takeFrom, beVal, toS,
+    extTagRead, tyStructEnd, tyZeroTag, tyBYTE, tySHORT, tyINT]
 
 open C05 in
-/-- witness for the "index" site -/
-theorem witness_index :
+/-- the former "makeslice" witness is now rejected with an error -/
+theorem repaired_negLen :
+    decStruct envV "V" (freshStruct envV "V") (Reader.mk0 negLenInput)
+      = (.error .eof, ⟨negLenInput.toArray, 3⟩) := by
+  rw [freshV]
+  exact decStruct_first_err envV "V" ⟨0, true, .vec .i32, none⟩ [] (.list []) [] findV
+    (fun f o' => decVar_vec_checkfail envV f 0 true .i32 o'
+      (r1 := ⟨negLenInput.toArray, 1⟩) (len := -1) (by rfl) (by rfl) (by decide))
+
+open C05 in
+/-- the former "index" witness is now rejected with an error -/
+theorem repaired_overlong :
     decStruct envA "A" (freshStruct envA "A") (Reader.mk0 overlongInput)
+      = (.error .mismatch, ⟨overlongInput.toArray, 3⟩) := by
+  rw [freshA]
+  exact decStruct_first_err envA "A" ⟨0, true, .arr 3 .i32, none⟩ [] _ [] findA
+    (fun f o' => decVar_arr_toolong envA f 0 true 3 .i32 o'
+      (r1 := ⟨overlongInput.toArray, 1⟩) (len := 4) (by rfl) (by rfl) (by decide))
+
+open C05 in
+/-- the former allocation witness is now rejected with an error … -/
+theorem repaired_hugeLen :
+    decStruct envV "V" (freshStruct envV "V") (Reader.mk0 hugeLenInput)
+      = (.error .eof, ⟨hugeLenInput.toArray, 6⟩) := by
+  rw [freshV]
+  exact decStruct_first_err envV "V" ⟨0, true, .vec .i32, none⟩ [] (.list []) [] findV
+    (fun f o' => decVar_vec_checkfail envV f 0 true .i32 o'
+      (r1 := ⟨hugeLenInput.toArray, 1⟩) (len := 2147483647) (by rfl) hugeLen_readLen
+      (by right; decide))
+
+open C05 in
+/-- as found: `09 00 FF` made `make([]int32, -1)` panic -/
+theorem asFound_makeslice :
+    AsFound.vecMake 0 true (Reader.mk0 negLenInput)
+      = (.error (.panic "makeslice"), ⟨negLenInput.toArray, 3⟩) := by rfl
+
+open C05 in
+/-- as found: `09 02 7F FF FF FF` (6 bytes) requested 2^31 − 1 elements -/
+theorem asFound_hugeMake :
+    AsFound.vecMake 0 true (Reader.mk0 hugeLenInput) = (.ok 2147483647, ⟨hugeLenInput.toArray, 6⟩) := by
+  have hs : skipToNoCheck 0 true (Reader.mk0 hugeLenInput)
+      = (.ok (true, tyLIST), ⟨hugeLenInput.toArray, 1⟩) := by rfl
+  unfold AsFound.vecMake
+  rw [hs]
+  simp only [if_true, hugeLen_readLen]
+  rfl
+
+open C05 in
+/-- as found: the array loop entered with 4 announced elements for `int a[3]` panics with
+    "index out of range" after the third element -/
+theorem asFound_index :
+    AsFound.arrLoop envA 50 .i32 3 [.int 0, .int 0, .int 0] ⟨overlongInput.toArray, 1⟩
       = (.error (.panic "index"), ⟨overlongInput.toArray, 9⟩) := by
-  rw [freshA, decStruct_eq]
-  simp only [findA]
-  have hF : decFuel envA (Reader.mk0 overlongInput) = 50 + 1 + 1 := by rfl
-  rw [hF]
-  have hr : resetDefault envA (50 + 1 + 1) [⟨0, true, .arr 3 .i32, none⟩] [.list [.int 0, .int 0, .int 0]]
-      = [.list [.int 0, .int 0, .int 0]] := by
-    simp [resetDefault]
-  rw [hr]
-  have hs : skipToNoCheck 0 true (Reader.mk0 overlongInput) = (.ok (true, tyLIST), ⟨overlongInput.toArray, 1⟩) := by rfl
   have hl : readLen ⟨overlongInput.toArray, 1⟩ = (.ok 4, ⟨overlongInput.toArray, 3⟩) := by rfl
   have e0 : decVar envA (48 + 1) 0 true .i32 ([Val.int 0, .int 0, .int 0].getD 0 (zeroOf envA .i32))
       ⟨overlongInput.toArray, 3⟩ = (.ok (.int 1), ⟨overlongInput.toArray, 5⟩) := by
@@ -187,16 +178,13 @@ theorem witness_index :
       ((listSet (listSet [Val.int 0, .int 0, .int 0] 0 (.int 1)) 1 (.int 2)).getD 2 (zeroOf envA .i32))
       ⟨overlongInput.toArray, 7⟩ = (.ok (.int 3), ⟨overlongInput.toArray, 9⟩) := by
     rw [Total.decVar_atom _ _ _ _ _ _ _ rfl]; rfl
-  have hv : decVar envA (50 + 1) 0 true (.arr 3 .i32) (.list [.int 0, .int 0, .int 0]) (Reader.mk0 overlongInput)
-      = (.error (.panic "index"), ⟨overlongInput.toArray, 9⟩) := by
-    rw [Total.decVar_arr, hs]
-    simp only [Bool.not_true, Bool.and_false, Bool.false_eq_true, if_false, if_true, hl, Total.oldList]
-    rw [decArr_step envA _ .i32 3 0 4 _ (by decide) (by decide) e0,
-      decArr_step envA _ .i32 3 1 4 _ (by decide) (by decide) e1,
-      decArr_step envA _ .i32 3 2 4 _ (by decide) (by decide) e2,
-      decArr_overflow envA _ .i32 3 3 4 _ _ (by decide) (by decide) rfl]
-  rw [decMembers_first_err envA (50 + 1) ⟨0, true, .arr 3 .i32, none⟩ [] _ [] hv]
-
+  unfold AsFound.arrLoop
+  rw [hl]
+  simp only
+  rw [decArr_step envA _ .i32 3 0 4 _ (by decide) (by decide) e0,
+    decArr_step envA _ .i32 3 1 4 _ (by decide) (by decide) e1,
+    decArr_step envA _ .i32 3 2 4 _ (by decide) (by decide) e2,
+    decArr_overflow envA _ .i32 3 3 4 _ _ (by decide) (by decide) rfl]
 
 /-- `ReadFrom` into a well-shaped target of a well-formed environment never reports the model's
     ill-typed-target marker -/
@@ -206,7 +194,8 @@ theorem decStruct_notIll {env : Env} (hwf : EnvClosed env) {name : String} {old 
   obtain ⟨fs, ovs, rfl, hfs, hm⟩ := shape_struct_inv hsh
   simp only [hfs]
   have hM := (dec_notIll env hwf (decFuel env r)).2.2.2.2 fs (resetDefault env (decFuel env r) fs ovs) r
-    (hwf.closed name fs hfs) (shape_resetDefault hwf _ fs _ (hwf.dflt name fs hfs) hm)
+    (hwf.closed name fs hfs)
+    (shape_resetDefault hwf _ fs _ (hwf.closed name fs hfs) (hwf.dflt name fs hfs) hm)
   cases hd : decMembers env (decFuel env r) fs (resetDefault env (decFuel env r) fs ovs) r with
   | mk res r1 =>
     rw [hd] at hM
@@ -254,23 +243,21 @@ theorem C05.envA_wf : EnvClosed C05.envA := by
     · simp at h
 
 open C05 in
-/-- a valid `vector<int>` of two elements (1, 2) under tag 0 -/
-def C05.twoInts : Bytes := C05.bs [0x09, 0x00, 2, 0x00, 1, 0x00, 2]
-
-open C05 in
+/-- a valid decode with its cost: 2 elements allocated, nesting 1, 7 bytes consumed -/
 theorem C05.twoInts_cost :
     decStructA envV "V" (freshStruct envV "V") (Reader.mk0 twoInts)
-      = ((.ok (.struct [.list [.int 1, .int 2]]), ⟨twoInts.toArray, 7⟩), ⟨2, true, 1⟩) := by
+      = ((.ok (.struct [.list [.int 1, .int 2]]), ⟨twoInts.toArray, 7⟩), ⟨2, 1⟩) := by
   rw [freshV]
   unfold decStructA
   simp only [findV]
   have hF : decFuel envV (Reader.mk0 twoInts) = 30 + 1 + 1 + 1 + 1 + 1 + 1 := by rfl
   rw [hF]
   have hr : resetDefault envV (30 + 1 + 1 + 1 + 1 + 1 + 1) [⟨0, true, .vec .i32, none⟩] [.list []] = [.list []] := by
-    simp [resetDefault]
+    simp [resetDefault, zeroOf, zeroVal]
   rw [hr]
   have hs : skipToNoCheck 0 true (Reader.mk0 twoInts) = (.ok (true, tyLIST), ⟨twoInts.toArray, 1⟩) := by rfl
   have hl : readLen ⟨twoInts.toArray, 1⟩ = (.ok 2, ⟨twoInts.toArray, 3⟩) := by rfl
+  have hc : checkLength 2 ⟨twoInts.toArray, 3⟩ = (.ok (), ⟨twoInts.toArray, 3⟩) := by rfl
   have hz : zeroOf envV .i32 = .int 0 := by simp [zeroOf, zeroVal, scalarZero]
   have e0 : readScalar .i32 (.int 0) 0 true ⟨twoInts.toArray, 3⟩ = (.ok (.int 1), ⟨twoInts.toArray, 5⟩) := by rfl
   have e1 : readScalar .i32 (.int 0) 0 true ⟨twoInts.toArray, 5⟩ = (.ok (.int 2), ⟨twoInts.toArray, 7⟩) := by rfl
@@ -279,18 +266,12 @@ theorem C05.twoInts_cost :
   unfold decMembersA
   simp only
   unfold decVarA
-  simp only [hs, hl, Bool.not_true, Bool.and_false, Bool.false_eq_true, if_false]
+  simp only [hs, hl, hc, Bool.not_true, Bool.and_false, Bool.false_eq_true, if_false]
   unfold decElemsA decMembersA
   unfold decVarA decElemsA
   simp only [hz, e0, a0]
   unfold decVarA decElemsA
   simp only [hz, e1, a1]
   rfl
-
-
-theorem C05.hugeLen_readLen :
-    readLen ⟨C05.hugeLenInput.toArray, 1⟩ = (.ok 2147483647, ⟨C05.hugeLenInput.toArray, 6⟩) := by
-  simp [readLen, readHead, readByte, C05.hugeLenInput, C05.bs, bReadU, readFull, takeFrom, beVal, toS,
-    extTagRead, tyStructEnd, tyZeroTag, tyBYTE, tySHORT, tyINT]
 
 end Tars
